@@ -380,5 +380,44 @@ def run(only=None):
     for acc in par.pmap(w_little, tasks, nw):
         s.merge(acc)
     s.done()
+
+    # 7. histories: out-of-range first calls, and long histories of valid calls
+    s = rep.sub("history_with_out_of_range_calls", "generate / check / check_and_correct / correct_numpy_array of the 7 codes x 8 out-of-range arguments "
+                                                   "(wrong length, empty, non-bit elements, wrong container); whatever that call does, generate and check of "
+                                                   "2 messages per code (and repair of a single error for the Hamming codes) give the reference result afterwards")
+    from mc import hist
+    funcs = {}
+    for name, cls in LIB.items():
+        for fn in ("generate", "check", "check_and_correct", "correct_numpy_array"):
+            if hasattr(cls, fn):
+                funcs[f"{name}.{fn}"] = getattr(cls, fn)
+    bad_args = [
+        ("empty_bitarray", lambda: bitarray()), ("bitarray_3", lambda: bitarray("101")), ("bitarray_21", lambda: bitarray("101" * 7)),
+        ("list_with_2", lambda: [1, 0, 2, 1, 0, 1, 1]), ("numpy_21", lambda: numpy.array([1, 0, 1] * 7)), ("numpy_values_3", lambda: numpy.array([3] * 16)),
+        ("bytes", lambda: b"\x01\x00\x01"), ("none", lambda: None),
+    ]
+    probes = []
+    for name, cls in LIB.items():
+        n, k, d, g, ext = gf2.CODES[name]
+        for i in range(2):
+            m = int(env.det_bits(f"c06-oor-{name}-{i}", k), 2)
+            c = gf2.encode_systematic(m, n, k, g, ext)
+            probes.append((f"{name}.generate", lambda cls=cls, m=m, k=k: to_int(cls.generate(int2ba(m, k)))))
+            probes.append((f"{name}.check", lambda cls=cls, c=c, n=n: (bool(cls.check(int2ba(c, n))), bool(cls.check(int2ba(c ^ 5, n))))))
+            if name in HAMMING:
+                probes.append((f"{name}.check_and_correct", lambda cls=cls, c=c, n=n: (lambda r: (bool(r[0]), to_int(r[1])))(cls.check_and_correct(int2ba(c ^ (1 << (n // 2)), n)))))
+                probes.append((f"{name}.correct_numpy_array", lambda cls=cls, c=c, n=n: to_int(cls.correct_numpy_array(numpy.array([int(b) for b in format(c ^ 2, f"0{n}b")])))))
+    hist.poisoned_histories(s, funcs, bad_args, probes)
+    s.done()
+    s = rep.sub("long_call_history", "the same valid calls again and again in one process: depth 3 when a call leaves class/module data untouched (observed), "
+                                     "2^16+256 calls per entry point when it does not, and always in the thorough tier")
+    import okdmr.dmrlib.etsi.fec.hamming_common as _mh, okdmr.dmrlib.etsi.fec.fec_utils as _mu, okdmr.dmrlib.etsi.fec.golay_20_8_7 as _mg
+    import okdmr.dmrlib.etsi.fec.quadratic_residue_16_7_6 as _mq
+    keep = [p_ for p_ in probes if p_[0].split(".")[0] in ("hamming_16_11_4", "hamming_13_9_3", "golay_20_8_7", "qr_16_7_6")]
+    dedup = {}
+    for lab, th in keep:
+        dedup.setdefault(lab, th)
+    hist.long_history(s, list(LIB.values()) + [_mh.HammingCommon, _mh, _mu, _mg, _mq], list(dedup.items()), always=rep.thorough())
+    s.done()
     rep.bounds = {"messages": "all 2^k", "words": "all 2^n", "single_errors": "all", "double_errors_16_11_4": "all"}
     return rep.finish()
